@@ -1,11 +1,14 @@
 package mon
 
 import (
+	"bytes"
 	"fmt"
 	"net"
 	"regexp"
 	"strings"
 	"sync"
+	"sync/atomic"
+	"time"
 	"unsafe"
 
 	"github.com/miekg/dns"
@@ -484,6 +487,50 @@ func c16Concurrent(w *core.W, j int) {
 		}(t)
 	}
 	wg.Wait()
+	// verification is a read-only use of its inputs too: one signed message (SIG(0)) and one signed
+	// RRset checked from several goroutines at once, all on the same buffer / records / key
+	if j%4 == 0 {
+		alg := []uint8{dns.ED25519, dns.ECDSAP256SHA256}[j/4%2]
+		k, err := getKey(alg, algBits[alg][0], "conc.example.", 512, 5)
+		if err != nil {
+			return
+		}
+		key := &dns.KEY{DNSKEY: *dns.Copy(k.Key).(*dns.DNSKEY)}
+		key.Hdr.Rrtype = dns.TypeKEY
+		now := uint32(time.Now().Unix())
+		sig := &dns.SIG{RRSIG: dns.RRSIG{KeyTag: key.KeyTag(), SignerName: "conc.example.", Algorithm: alg, Inception: now - 7200, Expiration: now + 7200}}
+		sm := built.Copy()
+		if len(sm.Extra) > 250 {
+			return
+		}
+		signed, err := sig.Sign(k.Priv, sm)
+		if err != nil {
+			return
+		}
+		before := append([]byte(nil), signed...)
+		var fails atomic.Int32
+		var wg2 sync.WaitGroup
+		for t := 0; t < 6; t++ {
+			wg2.Add(1)
+			go func() {
+				defer wg2.Done()
+				defer func() { recover() }()
+				for it := 0; it < 4; it++ {
+					if sig.Verify(key, signed) != nil {
+						fails.Add(1)
+					}
+				}
+			}()
+		}
+		wg2.Wait()
+		w.Count("concurrent_sig0_verifications", 1)
+		if n := fails.Load(); n > 0 {
+			w.Violation("C16/concurrent-verify-fails/SIG0", fmt.Sprintf("%d of 24 concurrent SIG.Verify calls on one valid signed buffer failed", n), map[string]any{"alg": alg})
+		}
+		if !bytes.Equal(before, signed) {
+			w.Violation("C16/read-only-op-mutates/SIG.Verify/buffer", "the signed buffer changed during verification", nil)
+		}
+	}
 }
 
 func init() {
